@@ -20,6 +20,13 @@ Skeleton terms (tuples; `body` = tuple of terms; v a pool name):
            ("with", v, body)                       (with [v (cm K)] ...)
            ("exc", v, body)                        (try (raise (ValueError K)) (except [v ValueError] ...))
            ("match", v, body)                      (match K v (do ...))
+           ("letm", bindings, body)                (let [b1 b2 (b3)] ...): one let with several bindings; a binding is
+                                                   ("b", v, e) = v E, or ("c", "fn"|"gfor") = a fresh helper name bound to
+                                                   (fn [] reads...) / (gfor _ [0] [reads...]) which is called / consumed
+                                                   at the start of the body, i.e. after every later (re)binding.  api.rst:
+                                                   "let executes the variable assignments one-by-one": every binding is a
+                                                   fresh variable, also when it rebinds a name of the same let.  Not part of
+                                                   the forest alphabets: enumerated by `letm_programs`.
 E is a fresh constant K, a logged read of the target's own name ("same":
 `(let [x (log i x)] ...)`) or of the next pool name ("other").
 
@@ -50,7 +57,7 @@ import itertools
 UNBOUND = "U"          # what a guarded read logs for an unbound name
 
 LEAF_OPS = ("setv", "aug", "setx", "forv", "defn", "defclass", "imp")
-BODY_OPS = ("let", "clo", "fnp", "lfor", "with", "exc", "match")
+BODY_OPS = ("let", "clo", "fnp", "lfor", "with", "exc", "match", "letm")
 DEFINERS = ("defn", "defclass", "imp")
 
 
@@ -143,9 +150,28 @@ def first_name(forest):
             r = first_name(t[3])
             if r:
                 return r
+        elif t[0] == "letm":
+            for b in t[1]:
+                if b[0] == "b":
+                    return b[1]
+            r = first_name(t[2])
+            if r:
+                return r
         else:
             return t[1]
     return None
+
+
+def letm_programs(nb, pool, body_n, full):
+    """Every one-let program with exactly nb bindings (each: pool name x {K, same, other}, or a closure / generator
+    bound to a helper name) and a body forest of 0..body_n constructs of the given alphabet."""
+    slots = [("b", v, e) for v in pool for e in ("K", "same", "other")] + [("c", "fn"), ("c", "gfor")]
+    out = []
+    for binds in itertools.product(slots, repeat=nb):
+        for m in range(body_n + 1):
+            for body in forests(m, pool, full):
+                out.append((("letm", binds, body),))
+    return out
 
 
 def canonical(forest, pool):
@@ -173,6 +199,8 @@ def nontrivial(forest, under=frozenset(), under_fn=False):
     occurs inside a `let` (or except / lfor binding) of the SAME name v; or a closure is defined under a let."""
     for t in forest:
         op = t[0]
+        if op == "letm":
+            return True
         if op == "clo":
             if under:
                 return True
@@ -214,10 +242,29 @@ class _Exp:
     def body(self, forest, root):
         """-> (stmts, pending end-call names).  root: this body is a function/module body (end calls go here)."""
         out = list(self.reads())
+        if not forest:
+            # every body reads every name at least twice (two reference nodes per name and scope)
+            out.extend(self.reads())
         pending = []
         for t in forest:
             op = t[0]
-            if op == "setv":
+            if op == "letm":
+                binds, calls = [], []
+                for b in t[1]:
+                    if b[0] == "b":
+                        binds.append((b[1], self.E(b[1], b[2])))
+                    elif b[1] == "fn":
+                        name = "h" + str(self.site())
+                        binds.append((name, ("fn", self.reads() + self.reads())))
+                        calls.append(("call", name))
+                    else:
+                        name = "h" + str(self.site())
+                        binds.append((name, ("gfor", self.reads() + self.reads())))
+                        calls.append(("consume", name))
+                b, p = self.body(t[2], False)
+                pending += p
+                out.append(("letm", binds, calls + b))
+            elif op == "setv":
                 out.append(("setv", t[1], self.E(t[1], t[2])))
             elif op == "aug":
                 out.append(("aug", t[1]))
@@ -295,6 +342,8 @@ def pyassigned(stmts, shadow=frozenset(), acc=None):
             acc.add(s[1])
         elif op == "let":
             pyassigned(s[3], shadow | {s[1]}, acc)
+        elif op == "letm":
+            pyassigned(s[2], shadow | {n for n, _ in s[1]}, acc)
         elif op == "clo":
             acc.add(s[2])
         elif op == "lfor":
@@ -330,6 +379,9 @@ def static_unspecified(stmts, comp=frozenset(), exc=frozenset(), lets=(), in_com
             r = static_unspecified(s[3])
         elif op == "let":
             r = static_unspecified(s[3], comp - {s[1]}, exc - {s[1]}, lets + (s[1],), in_comp)
+        elif op == "letm":
+            names = tuple(n for n, _ in s[1])
+            r = static_unspecified(s[2], comp - set(names), exc - set(names), lets + names, in_comp)
         elif op == "lfor":
             r = static_unspecified(s[4], comp | {s[1]}, exc - {s[1]}, lets, True)
         elif op == "exc":
@@ -359,6 +411,12 @@ class Closure:
         self.params, self.body, self.frame, self.lets = params, body, frame, lets
 
 
+class Gen:
+    """A generator made by (gfor _ [0] [reads...]): lazily evaluates its reads in the scope where it was written."""
+    def __init__(self, reads, frame, lets):
+        self.reads, self.frame, self.lets = reads, frame, lets
+
+
 class Fuel(BaseException):
     pass
 
@@ -369,6 +427,8 @@ _MISSING = object()
 def rep(v):
     if isinstance(v, Closure):
         return "<fn>"
+    if isinstance(v, Gen):
+        return "<gen>"
     return repr(v) if isinstance(v, int) else str(v)
 
 
@@ -471,6 +531,22 @@ class Interp:
         elif op == "let":
             v = self.E(frame, lets, s[2])
             return self.body(frame, {**lets, s[1]: Cell(v, "let")}, s[3])
+        elif op == "letm":
+            for name, val in s[1]:
+                if val[0] == "fn":
+                    v = Closure((), val[1], frame, lets)
+                elif val[0] == "gfor":
+                    v = Gen(val[1], frame, lets)
+                else:
+                    v = self.E(frame, lets, val)
+                lets = {**lets, name: Cell(v, "let")}        # a fresh variable per binding, in the order written
+            return self.body(frame, lets, s[2])
+        elif op == "consume":
+            g = self.find(frame, lets, s[1])
+            if g is _MISSING:
+                raise NameError(s[1])
+            for r in g.reads:
+                self.read(g.frame, g.lets, r[1], r[2])
         elif op == "clo":
             frame.vars[s[2]] = Closure((), s[3], frame, lets)
         elif op == "call":
@@ -564,6 +640,18 @@ def render_stmt(s, guard):
         return f"(import math :as {s[1]})"
     if op == "let":
         return f"(let [{s[1]} {_E(s[2], guard)}] {R(s[3])})"
+    if op == "letm":
+        parts = []
+        for name, val in s[1]:
+            if val[0] == "fn":
+                parts.append(f"{name} (fn [] {R(val[1])} None)")
+            elif val[0] == "gfor":
+                parts.append(f"{name} (gfor _ [0] [{R(val[1])}])")
+            else:
+                parts.append(f"{name} {_E(val, guard)}")
+        return f"(let [{' '.join(parts)}] {R(s[2])})"
+    if op == "consume":
+        return f"(list {s[1]})"
     if op == "clo":
         if s[1] == "fn":
             return f"(setv {s[2]} (fn [] {R(s[3])} None))"
